@@ -47,7 +47,7 @@ def main():
         core.build()
         proof = {"obligations": 0, "discharged": 0, "assumptions": [], "ok": True, "log": "", "theorems": []}
     else:
-        proof = core.proof_step(prop)
+        proof = core.proof_step(prop, tier)
     try:
         mod.run(ctx)
     except Exception:
